@@ -27,7 +27,7 @@ PROFILES = {
                    fault_kinds=["crash"], p_restrict=0.3, p_nan_metric=0.6, max_trials=14)), ],
     "C18": [(5, _p(world="local", kinds=MF, p_payload=0.8, p_rejects=0.5, p_noise=0.8, p_extra=0.5, max_trials=10)),
             (3, _p(world="mem", kinds=MF, p_payload=0.8, p_rejects=0.5, p_noise=0.8, p_extra=0.5)), ],
-    "C19": [(6, _p(world="mem", kinds=["moasha"], p_fault_free=0.7, p_ties=0.3, fault_kinds=["crash"])), ],
+    "C19": [(6, _p(world="mem", kinds=["moasha"], p_fault_free=0.7, p_ties=0.3, fault_kinds=["crash"], p_sparse_moasha=0.3)), ],
     "C14": [(6, _p(world="mem", kinds=["hb_stopping_bo", "hb_promotion_bo", "hb_promotion_bo", "hb_hypertune", "hb_dyhpo", "sync_hb_bo"],
                    p_fault_free=0.5, fault_kinds=["crash"], p_no_ckpt_script=0.4, max_trials=12, p_nodelay_false=0.05, p_early_finish=0.3)), ],
     "C20": [(6, _p(world="mem", kinds=["hb_promotion", "hb_pasha", "hb_cost_promotion", "hb_rush_promotion", "sync_hb", "sync_hb_custom",
@@ -89,7 +89,7 @@ PROFILES.update({
                    p_nodelay_false=0.03)),
             (1, _p(world="mem", kinds=["fifo_bo", "hb_stopping_bo", "hb_promotion_bo", "hb_hypertune", "sync_hb_bo"], max_trials=8,
                    p_fault_free=0.7, fault_kinds=["crash"], p_nodelay_false=0.0)), ],
-    "C15": [(6, _p(world="mem", kinds=[k for k in MF if k != "fifo_grid"] + ["hb_stopping", "hb_promotion", "hb_pasha", "hb_pasha"], p_fault_free=0.6, p_ties=0.0,
+    "C15": [(6, _p(world="mem", kinds=[k for k in MF if k != "fifo_grid"] + ["hb_stopping", "hb_promotion", "hb_pasha", "hb_pasha"], p_fault_free=0.6, p_ties=0.0, p_sparse_moasha=0.4,
                    fault_kinds=["crash"], p_nodelay_false=0.03, stop_fields=["max_num_trials_started", "max_num_trials_finished",
                                                                             "max_num_trials_completed", "max_num_evaluations", "max_wallclock_time"])),
             (2, _p(world="sim", kinds=[k for k in MF_SIM if k != "fifo_grid"], p_fault_free=0.7, fault_kinds=["crash"], p_ties=0.0,
